@@ -25,6 +25,9 @@ type Profile struct {
 	NoDA1                                   bool
 	NoCPR                                   bool // never answers CSI 6n (cursor position report)
 	Rows, Cols                              int
+	// StartCol is the column (0-based) the cursor is in when the application starts; the
+	// alternate screen is entered with the cursor where it was
+	StartCol int
 }
 
 // CapNames lists the profile switches in a fixed order (bit i of a mask).
@@ -58,6 +61,11 @@ type FakeConsole struct {
 	Raws   int
 	// WriteHook, when set, is called (outside the lock) with every write
 	WriteHook func(p []byte)
+	// cursor column during the start-up dialogue (from CSI ?1049h to the DA1 query): CSI H homes
+	// it, an OSC 66 text advances it by its width when the terminal implements explicit width.
+	// A cursor position report says where the cursor IS when CSI 6n arrives.
+	probing bool
+	curCol  int
 }
 
 func NewFakeConsole(p Profile) *FakeConsole {
@@ -204,6 +212,9 @@ func (c *FakeConsole) reply(p []byte) {
 			if pr.NoCPR {
 				return ""
 			}
+			if c.probing {
+				return fmt.Sprintf("\x1b[1;%dR", c.curCol+1)
+			}
 			if pr.ExplicitWidth {
 				return "\x1b[1;2R"
 			}
@@ -265,6 +276,22 @@ func (c *FakeConsole) reply(p []byte) {
 	for i := 0; i < len(p); i++ {
 		if p[i] != 0x1b {
 			continue
+		}
+		switch {
+		case bytes.HasPrefix(p[i:], []byte("\x1b[?1049h")):
+			c.probing, c.curCol = true, pr.StartCol
+		case bytes.HasPrefix(p[i:], []byte("\x1b[c")):
+			defer func() { c.probing = false }()
+		case bytes.HasPrefix(p[i:], []byte("\x1b[H")):
+			c.curCol = 0
+		case bytes.HasPrefix(p[i:], []byte("\x1b]66;w=")):
+			if pr.ExplicitWidth {
+				w := 0
+				for k := i + len("\x1b]66;w="); k < len(p) && p[k] >= '0' && p[k] <= '9'; k++ {
+					w = w*10 + int(p[k]-'0')
+				}
+				c.curCol += w
+			}
 		}
 		for _, qq := range qs {
 			if bytes.HasPrefix(p[i:], []byte(qq.pat)) {
